@@ -465,9 +465,19 @@ impl<T> ViaNoCloneFrom for &mut ProbeMut<'_, T> {}
 pub trait ViaDebug {
     fn p_debug(&self) -> Option<String>;
 }
+/// which format spec the Debug probe uses (the caller's flags reach a hand-written impl through the Formatter)
+pub static DEBUG_SPEC: core::sync::atomic::AtomicUsize = core::sync::atomic::AtomicUsize::new(0);
+pub const DEBUG_SPECS: [&str; 6] = ["{:?}", "{:#?}", "{:x?}", "{:X?}", "{:12?}", "{:+08?}"];
 impl<T: Debug> ViaDebug for Probe<'_, T> {
     fn p_debug(&self) -> Option<String> {
-        Some(format!("{:?}", self.0))
+        Some(match DEBUG_SPEC.load(core::sync::atomic::Ordering::Relaxed) {
+            1 => format!("{:#?}", self.0),
+            2 => format!("{:x?}", self.0),
+            3 => format!("{:X?}", self.0),
+            4 => format!("{:12?}", self.0),
+            5 => format!("{:+08?}", self.0),
+            _ => format!("{:?}", self.0),
+        })
     }
 }
 pub trait ViaNoDebug {
@@ -721,6 +731,8 @@ pub enum Route {
     FromVal,
     CloneOfFrom,
     CloneFrom,
+    CloneFromOntoSoft,
+    CloneFromOntoHw,
 }
 impl Route {
     pub fn name(self) -> &'static str {
@@ -731,9 +743,12 @@ impl Route {
             Route::FromVal => "from_val",
             Route::CloneOfFrom => "clone_of_from",
             Route::CloneFrom => "clone_from",
+            Route::CloneFromOntoSoft => "clone_from_onto_soft",
+            Route::CloneFromOntoHw => "clone_from_onto_hw",
         }
     }
-    pub const ALL: [Route; 6] = [Route::New, Route::Clone, Route::FromRef, Route::FromVal, Route::CloneOfFrom, Route::CloneFrom];
+    pub const ALL: [Route; 8] = [Route::New, Route::Clone, Route::FromRef, Route::FromVal, Route::CloneOfFrom, Route::CloneFrom,
+        Route::CloneFromOntoSoft, Route::CloneFromOntoHw];
 }
 
 pub fn ops_of<T: Ct>() -> TypeOps {
